@@ -39,7 +39,7 @@ typedef enum {
 	KEY_MOVEINTO,
 } mrul_key_t;
 
-#line 22 "evmrul-gp.erf"
+#line 21 "evmrul-gp.erf"
 struct mrul_key_cell_s {
 	const char *keystr;
 	mrul_key_t key;
@@ -70,7 +70,20 @@ __evmrul_key_hash (register const char *str, register size_t len)
      10,10,10,10,10,10,10,10,10,10,
      10,10,10,10,10,10,10,10,10,10,
      10,10,10,10,10,10,10,10,10,10,
-     10,10,10,10,10,10,10,10
+     10,10,10,10,10,10,10,10,10,10,
+     10,10,10,10,10,10,10,10,10,10,
+     10,10,10,10,10,10,10,10,10,10,
+     10,10,10,10,10,10,10,10,10,10,
+     10,10,10,10,10,10,10,10,10,10,
+     10,10,10,10,10,10,10,10,10,10,
+     10,10,10,10,10,10,10,10,10,10,
+     10,10,10,10,10,10,10,10,10,10,
+     10,10,10,10,10,10,10,10,10,10,
+     10,10,10,10,10,10,10,10,10,10,
+     10,10,10,10,10,10,10,10,10,10,
+     10,10,10,10,10,10,10,10,10,10,
+     10,10,10,10,10,10,10,10,10,10,
+     10,10,10,10,10,10
     };
   register unsigned int hval = len;
 
@@ -100,11 +113,11 @@ __evmrul_key (register const char *str, register size_t len)
 
   static const struct mrul_key_cell_s wordlist[] =
     {
-#line 28 "evmrul-gp.erf"
+#line 27 "evmrul-gp.erf"
       {"DIR", KEY_DIR},
-#line 30 "evmrul-gp.erf"
-      {"MOVEINTO", KEY_MOVEINTO},
 #line 29 "evmrul-gp.erf"
+      {"MOVEINTO", KEY_MOVEINTO},
+#line 28 "evmrul-gp.erf"
       {"MOVEFROM", KEY_MOVEFROM}
     };
 
